@@ -52,6 +52,7 @@ impl C13 {
         let rnd = match (ctx.flavour, ctx.tier) {
             (Flavour::Rel, Tier::Quick) => 30_000,
             (Flavour::Rel, Tier::Thorough) => 1_500_000,
+            (Flavour::Miri, _) => 100,
             (_, Tier::Quick) => 1_000,
             _ => 20_000,
         };
@@ -352,6 +353,10 @@ impl Check for C13 {
     fn post(&mut self, ctx: &Ctx, merged: &mut Stats) {
         if ctx.flavour == Flavour::Rel && ctx.tier == Tier::Thorough {
             crate::sup::run_sub_flavour("C13", ctx, Flavour::Asan, merged);
+            // byte / character arithmetic of replace_range and the aliasing of `s[0] = s` under Miri
+            let mctx = Ctx { seed: ctx.seed, tier: ctx.tier, flavour: Flavour::Miri };
+            let n = self.fams(&mctx).total();
+            crate::sup::run_miri("C13", ctx, 0, n, 16, merged);
         }
     }
 }
